@@ -244,13 +244,14 @@ PROPS["C01"] = {
     "theorems": ["C01_roundtrip", "C01_archive_records_source", "C01_input_delivery_irrelevant"],
     "suites": ["clirt", "compress", "conform"], "needs_cli": True,
     "rule": "cases: generated sources (empty, 1 byte, shorter than window/min chunk, around min/max, duplicate heavy, > 1 MiB) x "
-            "valid configurations (three chunkers, hash length 4..64, none/brotli levels 1..11, buffered-chunks 1..64) through "
+            "valid configurations (three chunkers, hash length 4..64, none/brotli/zstd/lzma at their levels, buffered-chunks 1..64) through "
             "`bita compress` then `bita clone` locally and over http and `bita info`; library writer + reader; every archive also "
             "compared byte for byte with the model's archive. non-trivial = archive > 300 bytes",
     "assumes": ["hash: any 64-byte function not colliding (after truncation) on the chunks of the source; codec round trip "
                 "(decompress (compress x) = x); fewer than 2^32 chunks",
                 "thread schedules: see C12 (ordered stages, flushed temp file) -- the runtime is assumed as modelled",
-                "zstd/lzma are not built in this sandbox's default feature set: only none and brotli are exercised"],
+                "the verification builds enable the zstd-compression and lzma-compression features: none, brotli, zstd and lzma are "
+                "exercised (the default build answers InvalidArchive for zstd/lzma archives)"],
     "trusted_base": [],
     "level_text": "Theorem C01_roundtrip (Coq): for every source and valid options the archive produced by the writer model is accepted by "
                   "the reader model and cloning it yields exactly the source; the header records the true size, checksum and settings. "
